@@ -26,18 +26,18 @@ class Query:
     def __init__(self, name, harness, entry, tus=(), defines=None, unwind=8, stubs=(), stdmodel=False, timeout=120,
                  mem_gb=12, backends=('cadical',), checks='mem', bound='', silent_throw=False, renames=None,
                  known=None, allow_bodyless=(), expect_covers=None, extra_cbmc=(), cxxflags=(), note='',
-                 validate=True, unwindset=(), uf=(), new_cap=0):
+                 validate=True, unwindset=(), uf=(), new_cap=0, tu_redirect=None):
         self.name = name; self.harness = harness; self.entry = entry; self.tus = tuple(tus)
         self.defines = dict(defines or {}); self.unwind = unwind; self.stubs = tuple(stubs); self.stdmodel = tuple(stdmodel) if isinstance(stdmodel, (tuple, list)) else (('q',) if stdmodel else ())
         self.timeout = timeout; self.mem_gb = mem_gb; self.backends = tuple(backends); self.checks = checks
         self.bound = bound; self.silent_throw = silent_throw; self.renames = dict(renames or {})
         self.known = dict(known or {}); self.allow_bodyless = tuple(allow_bodyless)
         self.expect_covers = expect_covers; self.extra_cbmc = tuple(extra_cbmc); self.cxxflags = tuple(cxxflags)
-        self.note = note; self.validate = validate; self.unwindset = tuple(unwindset); self.uf = tuple(uf); self.new_cap = new_cap
+        self.note = note; self.validate = validate; self.unwindset = tuple(unwindset); self.uf = tuple(uf); self.new_cap = new_cap; self.tu_redirect = dict(tu_redirect or {})
 
     def module_key(self):
         return (self.harness, tuple(sorted(self.defines.items())), self.tus, self.stdmodel,
-                tuple(sorted(self.renames.items())), self.cxxflags, self.uf)
+                tuple(sorted(self.renames.items())), self.cxxflags, self.uf, tuple(sorted((k, v[0]) for k, v in self.tu_redirect.items())))
 
 
 def sh(cmd, timeout=None, cwd=None, mem_gb=None, env=None):
@@ -118,13 +118,26 @@ class Pipeline:
             raise BuildError('clang failed on %s:\n%s' % (src, r['err'][-4000:]))
         return out
 
-    def tu_ll(self, tu, stdmodel, cxxflags, model_defines=()):
+    def tu_ll(self, tu, stdmodel, cxxflags, model_defines=(), redirect=None):
         # capacities of the bounded std models (VT_*_CAP) must be identical in every TU of a module (layout!)
-        key = ('tu', tu, stdmodel, cxxflags, tuple(model_defines))
+        redirect = redirect or {}
+        key = ('tu', tu, stdmodel, cxxflags, tuple(model_defines), tuple(sorted((k, v[0]) for k, v in redirect.items())))
         def build():
             h = hashlib.sha1(repr(key).encode()).hexdigest()[:10]
             out = os.path.join(self.work, 'tu_%s_%s.ll' % (os.path.basename(tu).replace('.cpp', ''), h))
-            return self.compile_ll(os.path.join(REPO, tu), out, list(model_defines), stdmodel, cxxflags)
+            self.compile_ll(os.path.join(REPO, tu), out, list(model_defines), stdmodel, cxxflags)
+            if redirect:
+                # IR-level cut of internal-linkage callees (anonymous namespace): every CALL of <mangled> goes to the harness's
+                # environment stub <stub> instead (the definition stays behind, unused); the declaration is supplied by the query
+                txt = open(out).read()
+                n = 0
+                for mangled, (stub, decl) in redirect.items():
+                    txt, k = re.subn(r'call (fastcc )?([^@\n]*)@%s\(' % re.escape(mangled), lambda m: 'call ' + m.group(2) + '@' + stub + '(', txt)
+                    n += k
+                    if k: txt += '\n' + decl + '\n'
+                if n == 0: raise BuildError('tu_redirect: no call site found in ' + tu)
+                open(out, 'w').write(txt)
+            return out
         return self.once(key, build)
 
     def module(self, q):
@@ -136,7 +149,7 @@ class Pipeline:
             hll = self.compile_ll(os.path.join(VT, 'harness', q.harness), os.path.join(d, 'h.ll'),
                                   sorted(q.defines.items()), q.stdmodel, q.cxxflags)
             mdefs = tuple(sorted((k, v) for k, v in q.defines.items() if k.startswith('VT_') and k.endswith('_CAP')))
-            tus = [self.tu_ll(t, q.stdmodel, q.cxxflags, mdefs) for t in q.tus]
+            tus = [self.tu_ll(t, q.stdmodel, q.cxxflags, mdefs, q.tu_redirect) for t in q.tus]
             entries = sorted(set(re.findall(r'^define [^@]*@(harness_\w+)\(', open(hll).read(), re.M)))
             if not entries: raise BuildError('no harness_* entry in ' + q.harness)
             overridden = []
@@ -381,7 +394,7 @@ class Pipeline:
     # ---- one query end to end
     def run_query(self, q, replay_root):
         rec = dict(query=q.name, harness=q.harness, entry=q.entry, defines=q.defines, bound=q.bound, unwind=q.unwind,
-                   stubs=['base.c'] + list(q.stubs), stdmodel=q.stdmodel, checks=q.checks, uninterpreted_float_ops=list(q.uf), operator_new_cap_bytes=q.new_cap, verdict='error',
+                   stubs=['base.c'] + list(q.stubs), stdmodel=q.stdmodel, checks=q.checks, uninterpreted_float_ops=list(q.uf), operator_new_cap_bytes=q.new_cap, internal_callees_redirected_to_stubs=sorted(q.tu_redirect), verdict='error',
                    failed=[], note=q.note)
         t0 = time.time()
         try:
